@@ -24,7 +24,7 @@ theorem reach_flowOK (w0 : World) (h0 : Fresh w0) (steps : List Step)
     (hg : ∀ st ∈ steps, GoodStep st) (hn : (chans (w0.run steps)).Nodup)
     (halive : (w0.run steps).died = none) :
     ∀ f ∈ (w0.run steps).flows, FlowOK (w0.run steps).cm (w0.run steps).sm f := by
-  have hw := (h0.runInv.run steps hg hn).2 halive
+  have hw := (h0.runInv.run steps hg hn).2.2 halive
   intro f hf
   obtain ⟨i, hi⟩ := List.getElem?_of_mem hf
   exact hw.flows i f hi
@@ -72,19 +72,17 @@ theorem C02_eof_sender_done :
     · cases h'
     · exact h'
 
-/-- **EOF arrives after the data** (client → server direction).  Once the server's wrapper has
+/-- **EOF arrives after ALL the data** (client → server direction).  Once the server's wrapper has
 processed the flow's EOF (`shut_read` on its mux side) and has not yet shut the destination
 socket: no DATA of the flow is still in flight, the client's buffer is empty, and everything
-read from the application is what the destination received, then exactly what the server still
-buffers for it, then `lost` — bytes the client discarded, which is possible only after the
-client stopped reading (STOP_SENDING from the server, or teardown).  So the shutdown that
-follows (`copy_to`: `if not self.buf and self.shut_read: nowrite()`) happens with every byte
-delivered. -/
+read from the application is exactly what the destination received followed by what the server
+still buffers for it — nothing was lost on the way.  The shutdown of the destination through
+the end-of-stream path (`copy_to`: `if not self.buf and self.shut_read: nowrite()`) happens
+when that buffer is empty, i.e. with every byte delivered (`C02_eof_shutdown_complete`). -/
 theorem C02_eof_after_data_up :
     ∀ f ∈ (w0.run steps).flows, ∀ p, f.s = some p → p.mw.shutR = true → f.dst.sawShut = false →
       dataOf f.chan (w0.run steps).cm.out = [] ∧ (upSrc (w0.run steps).cm f).buf = [] ∧
-      ∃ lost, f.app.consumed = f.dst.delivered ++ p.mw.buf.flatten ++ lost ∧
-        (lost ≠ [] → (upSrc (w0.run steps).cm f).present = false ∨ (upSrc (w0.run steps).cm f).shutR = true) := by
+      f.app.consumed = f.dst.delivered ++ p.mw.buf.flatten := by
   intro f hf p hp hr hs
   have h := reach_flowOK w0 h0 steps hg hn halive f hf
   have hb : upSink f = KV p.sw p.mw p.ok f.dst := by simp only [upSink, hp]
@@ -98,10 +96,9 @@ theorem C02_eof_after_data_up :
       · exact h'.2.1
     rw [upSrc_out] at hd
     refine ⟨hd, hbuf, ?_⟩
-    rcases h.up.exact with h' | ⟨lost, he, hl⟩
+    rcases h.up.exact with h' | he
     · rw [hb] at h'; simp only [KV] at h'; rw [hs] at h'; cases h'
-    · refine ⟨lost, ?_, fun hne => (hl hne).2⟩
-      have e3 : (upSrc (w0.run steps).cm f).consumed = f.app.consumed := by unfold upSrc; split <;> rfl
+    · have e3 : (upSrc (w0.run steps).cm f).consumed = f.app.consumed := by unfold upSrc; split <;> rfl
       rw [hb, upSrc_out, hd, hbuf, e3] at he
       simpa [KV] using he
 
@@ -109,8 +106,7 @@ theorem C02_eof_after_data_up :
 theorem C02_eof_after_data_down :
     ∀ f ∈ (w0.run steps).flows, ∀ p, f.c = some p → p.mw.shutR = true → f.app.sawShut = false →
       dataOf f.chan (w0.run steps).sm.out = [] ∧ (downSrc (w0.run steps).sm f).buf = [] ∧
-      ∃ lost, f.dst.consumed = f.app.delivered ++ p.mw.buf.flatten ++ lost ∧
-        (lost ≠ [] → (downSrc (w0.run steps).sm f).present = false ∨ (downSrc (w0.run steps).sm f).shutR = true) := by
+      f.dst.consumed = f.app.delivered ++ p.mw.buf.flatten := by
   intro f hf p hp hr hs
   have h := reach_flowOK w0 h0 steps hg hn halive f hf
   have hb : downSink f = KV p.sw p.mw p.ok f.app := by simp only [downSink, hp]
@@ -124,12 +120,63 @@ theorem C02_eof_after_data_down :
       · exact h'.2.1
     rw [downSrc_out] at hd
     refine ⟨hd, hbuf, ?_⟩
-    rcases h.down.exact with h' | ⟨lost, he, hl⟩
+    rcases h.down.exact with h' | he
     · rw [hb] at h'; simp only [KV] at h'; rw [hs] at h'; cases h'
-    · refine ⟨lost, ?_, fun hne => (hl hne).2⟩
-      have e3 : (downSrc (w0.run steps).sm f).consumed = f.dst.consumed := by unfold downSrc; split <;> rfl
+    · have e3 : (downSrc (w0.run steps).sm f).consumed = f.dst.consumed := by unfold downSrc; split <;> rfl
       rw [hb, downSrc_out, hd, hbuf, e3] at he
       simpa [KV] using he
+
+/-- **No discard before the peer endpoint is shut.**  While the destination socket is open, a
+client handler whose mux side is shut for writing got there by its own EOF: its buffer is empty
+and it has stopped reading — it was not told to stop, so it never threw bytes away. -/
+theorem C02_no_discard_before_shutdown :
+    ∀ f ∈ (w0.run steps).flows,
+      (f.dst.sawShut = false → ∀ p, f.c = some p → p.mw.shutW = true → p.sw.buf.flatten = [] ∧ p.sw.shutR = true) ∧
+      (f.app.sawShut = false → ∀ p, f.s = some p → p.mw.shutW = true → p.sw.buf.flatten = [] ∧ p.sw.shutR = true) := by
+  intro f hf
+  have h := reach_flowOK w0 h0 steps hg hn halive f hf
+  constructor
+  · intro hs p hp hw
+    have e2 : (upSink f).sawShut = f.dst.sawShut := by unfold upSink; split <;> rfl
+    have := h.up.nl1 (by rw [e2]; exact hs) (by simp [upSrc, hp, SV]) (by simp [upSrc, hp, SV, hw])
+    simpa [upSrc, hp, SV] using this
+  · intro hs p hp hw
+    have e2 : (downSink f).sawShut = f.app.sawShut := by unfold downSink; split <;> rfl
+    have := h.down.nl1 (by rw [e2]; exact hs) (by simp [downSrc, hp, SV]) (by simp [downSrc, hp, SV, hw])
+    simpa [downSrc, hp, SV] using this
+
+/-- **STOP_SENDING is sent only after the sender shut its own socket.**  A STOP_SENDING frame of a
+flow in the server → client queue implies the destination socket was shut down (and
+symmetrically): telling the peer to stop is never what makes data get lost for an endpoint that
+could still receive it. -/
+theorem C02_stop_only_after_shutdown :
+    ∀ f ∈ (w0.run steps).flows,
+      (hasStop f.chan (w0.run steps).sm.out = true → f.dst.sawShut = true) ∧
+      (hasStop f.chan (w0.run steps).cm.out = true → f.app.sawShut = true) := by
+  intro f hf
+  have h := reach_flowOK w0 h0 steps hg hn halive f hf
+  constructor
+  · intro hst
+    have hown := h.down.stopOk (by rw [downSrc_out]; exact hst)
+    have e2 : (upSink f).sawShut = f.dst.sawShut := by unfold upSink; split <;> rfl
+    rw [← e2]
+    cases hcc : f.s with
+    | none =>
+      cases hev : f.sEver with
+      | true => exact h.up.goneShut (by simp [upSink, hcc, goneSink, hev]) (by simp [upSink, hcc, goneSink])
+      | false => simp only [downSrc, hcc, goneSrc, hev] at hown; cases hown
+    | some q =>
+      simp only [downSrc, hcc, SV] at hown
+      exact h.up.shutOk (by simp [upSink, hcc, KV]) (by simp [upSink, hcc, KV]; exact hown)
+  · intro hst
+    have hown := h.up.stopOk (by rw [upSrc_out]; exact hst)
+    have e2 : (downSink f).sawShut = f.app.sawShut := by unfold downSink; split <;> rfl
+    rw [← e2]
+    cases hcc : f.c with
+    | none => exact h.down.goneShut (by simp [downSink, hcc, goneSink]) (by simp [downSink, hcc, goneSink])
+    | some q =>
+      simp only [upSrc, hcc, SV] at hown
+      exact h.down.shutOk (by simp [downSink, hcc, KV]) (by simp [downSink, hcc, KV]; exact hown)
 
 /-- **Half-close.**  The finished direction does not disturb the other one: with the client →
 server direction completely closed (application closed, destination socket shut down), the
@@ -137,9 +184,8 @@ server → client direction still satisfies the full accounting of C01 as long a
 application's socket has not been shut — its bytes keep flowing, in order, without loss. -/
 theorem C02_half_close :
     ∀ f ∈ (w0.run steps).flows, f.dst.sawShut = true → f.app.sawShut = false →
-      ∃ lost, f.dst.consumed = f.app.delivered ++ (downSink f).buf ++ dataOf f.chan (w0.run steps).sm.out ++
-          (downSrc (w0.run steps).sm f).buf ++ lost ∧
-        (lost ≠ [] → (downSrc (w0.run steps).sm f).present = false ∨ (downSrc (w0.run steps).sm f).shutR = true) := by
+      f.dst.consumed = f.app.delivered ++ (downSink f).buf ++ dataOf f.chan (w0.run steps).sm.out ++
+          (downSrc (w0.run steps).sm f).buf := by
   intro f hf _ hs
   rcases (C01_conservation w0 h0 steps hg hn halive f hf).2 with h | h
   · rw [hs] at h; cases h
@@ -230,6 +276,58 @@ theorem C02_finished_frees_id (w0 : World) (h0 : w0.flows = []) (steps : List St
   exact ⟨fun p hp hok => ⟨(hc p hp).2 hok, ((hc p hp).2 hok).unregistered⟩,
          fun p hp hok => ⟨(hs p hp).2 hok, ((hs p hp).2 hok).unregistered⟩⟩
 
+
+
+/-- **The end-of-stream path shuts the socket only when everything was written.**  If a
+`MuxWrapper.copy_to(SockWrapper)` without a socket fault (the send was accepted or would block)
+shuts down a socket that was open, then the wrapper had received EOF and its buffer is empty
+afterwards.  With `C02_eof_after_data_up/_down`: at that moment the endpoint has received
+exactly the bytes its peer wrote before closing. -/
+theorem C02_eof_shutdown_complete (w : MuxW) (s : SockW) (e : ESock) (r : SendRes) (se : Bool)
+    (hs : e.sawShut = false) (hr : (∃ n, r = .sent n) ∨ r = .eagain)
+    (hres : (muxCopyToSock w s e r se).2.2.sawShut = true) :
+    w.shutR = true ∧ (muxCopyToSock w s e r se).1.buf = [] := by
+  have huw : ∀ b, (s.uwrite e b r se).2.2.sawShut = false := by
+    intro b
+    unfold SockW.uwrite
+    split
+    · exact hs
+    · simp only [hs, Bool.false_eq_true, ↓reduceIte]
+      rcases hr with ⟨n, hn⟩ | hn
+      · subst hn; rfl
+      · subst hn; exact hs
+  have tail : ∀ x : MuxW × SockW × ESock, x.1.shutR = w.shutR → x.2.2.sawShut = false →
+      (if ({ x.1 with buf := popEmpty x.1.buf } : MuxW).buf.isEmpty && ({ x.1 with buf := popEmpty x.1.buf } : MuxW).shutR then
+          (({ x.1 with buf := popEmpty x.1.buf } : MuxW), (x.2.1.nowrite x.2.2 se).1, (x.2.1.nowrite x.2.2 se).2)
+        else (({ x.1 with buf := popEmpty x.1.buf } : MuxW), x.2.1, x.2.2)).2.2.sawShut = true →
+      w.shutR = true ∧
+      (if ({ x.1 with buf := popEmpty x.1.buf } : MuxW).buf.isEmpty && ({ x.1 with buf := popEmpty x.1.buf } : MuxW).shutR then
+          (({ x.1 with buf := popEmpty x.1.buf } : MuxW), (x.2.1.nowrite x.2.2 se).1, (x.2.1.nowrite x.2.2 se).2)
+        else (({ x.1 with buf := popEmpty x.1.buf } : MuxW), x.2.1, x.2.2)).1.buf = [] := by
+    intro x hw1 he1 h
+    by_cases hc : (({ x.1 with buf := popEmpty x.1.buf } : MuxW).buf.isEmpty &&
+        ({ x.1 with buf := popEmpty x.1.buf } : MuxW).shutR) = true
+    · rw [if_pos hc]
+      simp only [Bool.and_eq_true, List.isEmpty_iff] at hc
+      exact ⟨by rw [← hw1]; exact hc.2, hc.1⟩
+    · rw [if_neg hc] at h
+      simp only at h
+      rw [he1] at h; cases h
+  revert hres
+  unfold muxCopyToSock
+  cases hb : w.buf with
+  | nil => exact tail (w, s, e) rfl hs
+  | cons b rest =>
+    simp only
+    by_cases hbe : b.isEmpty = true
+    · simp only [hbe, ↓reduceIte]; exact tail (w, s, e) rfl hs
+    · simp only [hbe, Bool.false_eq_true, ↓reduceIte]
+      have hu := huw b
+      generalize s.uwrite e b r se = u at hu
+      obtain ⟨on, s1, e1⟩ := u
+      cases on with
+      | none => exact tail (w, s1, e1) rfl hu
+      | some n => exact tail ({ w with buf := b.drop n :: rest }, s1, e1) rfl hu
 
 /-! ### non-vacuity -/
 
